@@ -132,7 +132,7 @@ class SymbolDBPersistor(ISymbolDBPersistor):
 		Returns:
 			True = 実施
 		"""
-		return module.in_storage() and not self.sources.exists(filepath)
+		return self.setting.enabled and module.in_storage() and not self.sources.exists(filepath)
 
 	def _can_restore(self, module: Module, filepath: str) -> bool:
 		"""復元を実施するか判定
